@@ -537,9 +537,18 @@ func scriptCaseRun(t *testing.T, c *scriptCase) {
 		last := obs.log[len(obs.log)-1]
 		want := outcomeTruth(last.beh)
 		ok := obs.res == want
-		if !ok && c.Op != "T" && last.beh.Kind == "S" && last.beh.Code == 401 && (last.beh.Chal == 1 || last.beh.Chal == 2) &&
-			(obs.res == "ENOTREWINDABLE" && c.Body[0] == 'O' || obs.res == "EGETBODY" && c.Body[0] == 'G') {
-			ok = true
+		rewindErr := obs.res == "ENOTREWINDABLE" && c.Body[0] == 'O' || obs.res == "EGETBODY" && c.Body[0] == 'G'
+		if !ok && rewindErr && c.Op != "T" && last.beh.Kind == "S" && last.beh.Code == 401 {
+			// the auth client answers a challenge it would have to re-send for with the rewind error:
+			// after the first send (Basic/Bearer challenge), or - warm Bearer cache - after the
+			// cached token was refused with any 401
+			firstLast := sends[0][len(sends[0])-1].beh
+			switch {
+			case len(sends[1]) == 0 && (last.beh.Chal == 1 || last.beh.Chal == 2):
+				ok = true
+			case c.Op == "W" && len(sends[1]) > 0 && len(sends[2]) == 0 && firstLast.Code == 401 && firstLast.Chal == 2:
+				ok = true
+			}
 		}
 		if !ok {
 			fail("wrong-result", fmt.Sprintf("last answer was %s", want))
@@ -979,8 +988,8 @@ func TestVerif(t *testing.T) {
 	// small-scope exhaustive: every sequence of server behaviours up to a length, every body kind, both stacks
 	enumScripts(t, run.Scale(3, 5), false)
 	enumScripts(t, run.Scale(2, 4), true)
-	nScripts := run.Scale(2500, 300000)
-	nPoints := run.Scale(20000, 3000000)
+	nScripts := run.Scale(2500, 500000)
+	nPoints := run.Scale(20000, 4000000)
 	nBig := run.Scale(6, 200)
 	for i := 0; i < nScripts; i++ {
 		scriptCaseRun(t, genScript(r, false))
